@@ -29,6 +29,7 @@ pub assume_specification<T, F: FnOnce(T) -> bool>[ Option::<T>::is_some_and ](o:
 //@ extract file=minijinja/src/compiler/instructions.rs item=enum:CompareOp drop_derive
 //@ extract file=minijinja/src/output.rs item=enum:CaptureMode drop_derive
 //@ extract file=minijinja/src/compiler/instructions.rs item=enum:Instruction drop_derive
+//@ extract file=minijinja/src/compiler/tokens.rs item=struct:Span drop_derive
 //@ extract file=minijinja/src/compiler/instructions.rs item=struct:LineInfo
 //@ extract file=minijinja/src/compiler/instructions.rs item=struct:Instructions
 
@@ -113,6 +114,20 @@ broadcast use {lt_lemmas::lemma_push, lt_lemmas::lemma_none, lt_lemmas::lemma_fo
 //@ |        final(self).line_infos@.len() > old(self).line_infos@.len() ==> final(self).line_at(instr as int) == Some(line),
 //@ |        forall|k: int| 0 <= k < instr ==> final(self).line_at(k) == old(self).line_at(k),
 //@ |        forall|i: int| 0 <= i < final(self).line_infos@.len() ==> (#[trigger] final(self).line_infos@[i]).first_instruction <= instr,
+
+//# ob name=lt_add_with_line verus_fn=Instructions::add_with_line fn=compiler::instructions::Instructions::add_with_line kind=complete stmt="add_with_line (what the code generator calls for most instructions; build without the debug feature: the span table is not part of this text), verified against the contracts of add and add_line_record: appends exactly one instruction and returns its index; the table stays well formed; the line reported for every EARLIER instruction is unchanged; when a record is added the new instruction reports the given line"
+//@ extract file=minijinja/src/compiler/instructions.rs item=fn:Instructions::add_with_line ret=rv
+//@ |    requires old(self).wf(), old(self).instructions@.len() < u32::MAX,
+//@ |    ensures final(self).wf(), final(self).instructions@ == old(self).instructions@.push(instr), rv == old(self).instructions@.len(),
+//@ |        forall|k: int| 0 <= k < rv ==> final(self).line_at(k) == old(self).line_at(k),
+//@ |        final(self).line_infos@.len() > old(self).line_infos@.len() ==> final(self).line_at(rv as int) == Some(line),
+
+//# ob name=lt_add_with_span verus_fn=Instructions::add_with_span fn=compiler::instructions::Instructions::add_with_span kind=complete stmt="add_with_span (instructions that carry a source range): same contract with the line taken from the START of the range - the reported line of an error is the line its range starts on"
+//@ extract file=minijinja/src/compiler/instructions.rs item=fn:Instructions::add_with_span ret=rv
+//@ |    requires old(self).wf(), old(self).instructions@.len() < u32::MAX,
+//@ |    ensures final(self).wf(), final(self).instructions@ == old(self).instructions@.push(instr), rv == old(self).instructions@.len(),
+//@ |        forall|k: int| 0 <= k < rv ==> final(self).line_at(k) == old(self).line_at(k),
+//@ |        final(self).line_infos@.len() > old(self).line_infos@.len() ==> final(self).line_at(rv as int) == Some(span.start_line),
 
     // get_line is not extracted: its binary_search_by_key takes the closure `|x| x.first_instruction`, and a closure
     // without an `ensures` clause has no specification in Verus, so nothing about the search result can be derived from
